@@ -512,7 +512,13 @@ class Gen:
         mixed = FLOAT in (ta, tb) and ta != tb
         self.nofree += mixed
         try:
-            a, b = self.expr(ta, d - 1), self.expr(tb, d - 1)
+            # an ordering guard on an enum-typed variable casts it to Float (known finding known_enum_guard)
+            self.noenum += op in (0, 1, 4, 5)
+            try:
+                a = self.expr(ta, d - 1)
+            finally:
+                self.noenum -= op in (0, 1, 4, 5)
+            b = self.expr(tb, d - 1)
         finally:
             self.nofree -= mixed
         # lower.rs get_bin_guard_type: == != need the *value* of the right operand (expr_to_value), the orderings only a
